@@ -138,6 +138,17 @@ def observe (b : Both) (evs : List Event) (times : List Nat) (probes : List PSpe
     p := p.lit s!"conflicted={(conflictedOf s d).isSome}"
   return p.render
 
+/-- 51 / 52: this Add overlaps the next arrival and is parked before its 1st / 2nd write transaction until the next
+    Add has completed. The event list is read, changed and written inside ONE write transaction
+    (fact_event_list_read_modify_write_in_one_transaction), and write transactions are serialised, so the outcome is that
+    of the sequential order "next arrival first". -/
+def applySwaps : List (Event × Nat) → List (Event × Nat)
+  | [] => []
+  | [x] => [x]
+  | (e, c) :: (e2, c2) :: rest =>
+    if c = 51 ∨ c = 52 then (e2, c2) :: (e, 0) :: applySwaps rest
+    else (e, c) :: applySwaps ((e2, c2) :: rest)
+
 /-- arrival sequence with the op's failure codes: an Add whose first or second write transaction fails (1, 2, 3)
     or one of whose shelf operations fails (100+k) leaves the modelled state unchanged (the txRef / document shelves are content addressed and only ever read
     for refs of listed events); 4 = restart (cache reload) before a plain Add -/
@@ -164,7 +175,7 @@ def step (st : St) (j : Json) : St × List String :=
     let times := jNats j "times"
     let probes := (jArr j "probes").map parseProbe
     let seq := (arrival.zipIdx).filterMap (fun (i, pos) => (evs[i]?).map (fun e => (e, fail.getD pos 0)))
-    match runSeq {} seq with
+    match runSeq {} (applySwaps seq) with
     | .ok b =>
       let o := observe b evs.toList times probes false
       -- restart: the durable state survives, the conflicted cache is rebuilt from the shelves
